@@ -415,3 +415,55 @@ def output_only_rule(rep, u):
             (rep.proved if not bad else rep.violated)("R-OUTONLY", fn, "store-through:%s" % b["n"], desc, "" if not bad else
                                                       "%s points into the input: %s(in, n, out != in) rewrites the caller's input and leaves the output unconverted" % (b["n"], fname), x.get("ln"))
     return n
+
+
+
+def chunk_result_rule(rep, u, fname="http_data_decode_chunked"):
+    """every success return of the chunk decoder has stored the data pointer (the legal empty body "0" CRLF CRLF leaves the
+    loop before the first chunk: the caller's pointer stayed uninitialised)"""
+    from rules import r_mpt
+    fn = u.fn(fname)
+    if fn is None or not fn.has_cfg:
+        raise driver.AnalysisBroken("anchor %s vanished" % fname)
+    rep.functions.add(fname)
+    outp = [p for p in fn.params if p["n"] == "data_ret"]
+    if not outp:
+        raise driver.AnalysisBroken("%s: data_ret parameter not found" % fname)
+    stores = [pos for pos, root, x, ps in fn.nodes() if x.get("k") == "bin" and x["op"] == "=" and core.strip_casts(x["x"]).get("k") == "un" and core.strip_casts(x["x"])["op"] == "*" and
+              core.base_ref(x["x"]) is not None and core.base_ref(x["x"]).get("id") == outp[0]["id"]]
+    succ = r_mpt.success_returns(fn)
+    bad = [sp for sp in succ if not any(fn.pos_dominates(st, sp) for st in stores)]
+    desc = "%s: *data_ret is stored before every success return" % fname
+    (rep.violated if bad or not succ else rep.proved)("R-OUTDEF", fn, "data-pointer-always-set", desc,
+                                                      "a success return is reachable without a store: \"0\\r\\n\\r\\n\" returns 0 with size 0 and the caller's pointer untouched" if bad else "")
+    return 1
+
+
+def cache_type_flag_rule(rep, u, fname="dns_rslvr_cache_entry_data_add"):
+    """a refresh that brings no data (NXDOMAIN, error, timeout) keeps the stored data - and so must keep what says how to read it:
+    on the no-data path the CNAME flag of the entry flows into the flags written back (or the data is dropped).  Otherwise the
+    stored alias text, whose count is its length in bytes, is read as that many 26-byte address records."""
+    fn = u.fn(fname)
+    if fn is None or not fn.has_cfg:
+        raise driver.AnalysisBroken("anchor %s vanished" % fname)
+    rep.functions.add(fname)
+    cnt = [p for p in fn.params if p["n"] == "data_count"]
+    if not cnt:
+        raise driver.AnalysisBroken("%s: data_count parameter not found" % fname)
+    from props.c16_audit import _follow
+    wr = [pos for pos, root, x, ps in fn.nodes() if x.get("k") == "bin" and x["op"] == "=" and key(core.strip_casts(x["x"])).endswith("cache_entry->flags")]
+    if not wr:
+        raise driver.AnalysisBroken("%s: the write-back of the entry flags not found" % fname)
+    keep = set()
+    for pos, root, x, ps in fn.nodes():
+        if x.get("k") == "bin" and x["op"] in ("|=", "=") and core.is_ref(core.strip_casts(x["x"]), name="flags") and any(y.get("k") == "mem" and y["f"] == "flags" for y, _ in _walk(x["y"])):
+            keep.add(pos[0])
+        if x.get("k") == "call" and x.get("fn") == "free" and "pdata" in key(x):
+            keep.add(pos[0])
+    reach = _follow(fn, fn.entry, cnt[0]["id"], 0, stop=keep)
+    bad = [w for w in wr if w[0] in reach and w[0] not in keep]
+    desc = "%s: with no new data the stored data keeps its type flag (or is dropped)" % fname
+    (rep.violated if bad else rep.proved)("R-TYPEFLAG", fn, "no-data-keeps-type", desc,
+                                          "cache_entry->flags is overwritten with the flags of the empty answer while pdata / data_count stay: 'x CNAME y' (ttl 1), then NXDOMAIN on "
+                                          "refresh, then a lookup copies six 26-byte records out of the 8-byte alias block" if bad else "")
+    return 1
